@@ -139,8 +139,23 @@ macro_rules! roundtrip {
 }
 
 fn wide_grammar(ntoks: usize) -> String {
-    // one rule, many tokens: token count chosen so that the per-state bit vectors have the wanted length
-    let mut s = String::from("%start S\n%%\nS:");
+    // one rule, many tokens: token count chosen so that the per-state bit vectors have the wanted
+    // length; with declarations spread over the tokens so that the per-token tables (precedence
+    // levels up to the token count, %epp, %avoid_insert bits) are as wide as the token set
+    let mut s = String::from("%start S\n");
+    let mut ai = String::from("%avoid_insert");
+    for t in 0..ntoks {
+        if t % 3 == 0 {
+            ai.push_str(&format!(" 'k{}'", t));
+        }
+        if t % 5 == 1 {
+            s.push_str(&format!("%epp 'k{}' \"token {}\"\n", t, t));
+        }
+        let kw = ["%left", "%right", "%nonassoc"][t % 3];
+        s.push_str(&format!("{} 'k{}'\n", kw, t));
+    }
+    s.push_str(&ai);
+    s.push_str("\n%%\nS:");
     for t in 0..ntoks {
         if t > 0 {
             s.push_str(" |");
@@ -210,7 +225,7 @@ pub fn run(ctx: Ctx) -> i32 {
         .reduce(Stats::default, |a, b| a.merge(b));
     // F-wide
     let mut st = Stats::default();
-    for ntoks in [1usize, 2, 30, 31, 32, 33, 62, 63, 64, 65, 127, 128, 129, 130, 200, 253, 254] {
+    for ntoks in [1usize, 2, 30, 31, 32, 33, 62, 63, 64, 65, 127, 128, 129, 130, 200, 253, 254, 255, 256, 257, 300] {
         let t = wide_grammar(ntoks);
         check_text(&ctx, &t, vcore::real::YK, &all_inputs(ntoks.min(3), 3), &mut st, &format!("wide {}", ntoks));
     }
